@@ -133,6 +133,15 @@ caller_wide!(k00 = "k00", k01 = "k01", k02 = "k02", k03 = "k03", k04 = "k04", k0
              k09 = "k09", k10 = "k10", k11 = "k11", k12 = "k12", k13 = "k13", k14 = "k14", k15 = "k15", k16 = "k16", k17 = "k17",
              k18 = "k18", k19 = "k19", k20 = "k20", k21 = "k21", k22 = "k22", k23 = "k23");
 
+/// A caller-defined attested-credential-data type: it implements the one required method of the
+/// public trait and nothing else.
+struct CallerAcd(Vec<u8>);
+impl ctap2::SerializeAttestedCredentialData for CallerAcd {
+    fn serialize(&self, buffer: &mut ctap2::SerializedAuthenticatorData) -> ctap2::Result<()> {
+        buffer.extend_from_slice(&self.0).map_err(|_| ctap2::Error::Other)
+    }
+}
+
 pub fn authdata(inp: &Value) -> R<Value> {
     let i = field(inp, "in")?;
     let flavour = field(i, "flavour")?.as_str().ok_or("flavour")?;
@@ -190,6 +199,27 @@ pub fn authdata(inp: &Value) -> R<Value> {
                 rp_id_hash: &hash, flags, sign_count: count,
                 attested_credential_data: None::<get_assertion::NoAttestedCredentialData>, extensions: e,
             };
+            ad.serialize()
+        }
+        "raw" => {
+            // the same layout written by the caller's own type (ids longer than 65535 are not built)
+            let raw = match acd {
+                Some(a) => {
+                    let aa = get_bytes(field(a, "aaguid")?)?;
+                    let id_len = field(a, "idLen")?.as_u64().ok_or("idLen")? as usize;
+                    if id_len > 65535 { return Err("raw flavour: id too long".into()); }
+                    let idb = pattern(field(a, "idSeed")?.as_u64().ok_or("idSeed")?, id_len);
+                    let pkb = get_bytes(field(a, "pk")?)?;
+                    let mut v = aa.clone();
+                    v.extend_from_slice(&(id_len as u16).to_be_bytes());
+                    v.extend_from_slice(&idb);
+                    v.extend_from_slice(&pkb);
+                    Some(CallerAcd(v))
+                }
+                None => None,
+            };
+            let e = match ext { Some(e) => Some(build::mc_ext(e)?), None => None };
+            let ad = ctap2::AuthenticatorData { rp_id_hash: &hash, flags, sign_count: count, attested_credential_data: raw, extensions: e };
             ad.serialize()
         }
         "wide" => {
